@@ -4,6 +4,7 @@ from __future__ import annotations
 
 import asyncio
 import datetime
+import heapq
 import selectors
 
 EPOCH = datetime.datetime(2020, 1, 1, tzinfo=datetime.timezone.utc)     # a multiple of 86400 s
@@ -18,6 +19,12 @@ class VLoop(asyncio.SelectorEventLoop):
         return self._vt
 
     def _run_once(self):
+        # cancelled timers at the head of the heap must not hide the next live one (the base class would then really
+        # sleep until it is due)
+        while self._scheduled and self._scheduled[0]._cancelled:
+            self._timer_cancelled_count -= 1
+            handle = heapq.heappop(self._scheduled)
+            handle._scheduled = False
         if not self._ready and self._scheduled:
             when = self._scheduled[0]._when
             if when > self._vt:
